@@ -2,7 +2,7 @@
 C11 — Python ranges and python_version markers convert into each other exactly.
 Property theorems only (helper lemmas in Proofs/PyConvText.lean, PyConvMarker.lean, PyConvSem.lean,
 PyConvRange.lean, PyConvNorm.lean, PyConvGpc.lean, PyConvPoetry.lean, PyConvLeaf.lean,
-PyConvSplit.lean, PyConvShape.lean, PyConvSplitSem.lean, PyConvSplitSound.lean).
+PyConvSplit.lean, PyConvShape.lean, PyConvSplitSem.lean, PyConvSplitSound.lean, PyConvIn.lean).
 
 Vocabulary.  `EnvPy E X Y Z`: the environment `E` has `python_version = "X.Y"` and
 `python_full_version = "X.Y.Z"` (all of `X Y Z : Nat`, unbounded); `pyV X Y Z` is the version `X.Y.Z`.
@@ -15,6 +15,7 @@ import PoetryVerif.Proofs.PyConvNorm
 import PoetryVerif.Proofs.PyConvGpc
 import PoetryVerif.Proofs.PyConvPoetry
 import PoetryVerif.Proofs.PyConvLeaf
+import PoetryVerif.Proofs.PyConvIn
 import PoetryVerif.Proofs.VRangeOps
 import PoetryVerif.Proofs.MarkerProj
 
@@ -168,6 +169,21 @@ theorem pyConstraint_exact_leaf (E : Env) (X Y Z : Nat) (hE : EnvPy E X Y Z) (s 
     ∃ vc b, gpcLeaf (.single s) = .ok vc ∧ vc.allowsPlain (pyV X Y Z) = b ∧
       evalItem s.name s.op s.value false E = some b :=
   gpcLeaf_exact E X Y Z hE s lit hv hi hop
+
+/-- **`python_version in "X0.Y0 X1.Y1 …"`** (any number of two-component versions, any separator runs of blanks,
+commas, bars): the normaliser prints one alternative `Xi.Yi.*` per listed version (repo fix bb3e413),
+`parse_marker_version_constraint` reads their `||`-join as the union of the half-open ranges, `allows` of the
+result never raises, and it admits `X.Y.Z` exactly when `(X, Y)` is listed — the reference value of the item. -/
+theorem pyConstraint_exact_leaf_in (E : Env) (X Y Z : Nat) (hE : EnvPy E X Y Z) (s : Single) (p0 : Nat × Nat)
+    (rest : List (String × (Nat × Nat))) (hs : ∀ q ∈ rest, SepRun q.1)
+    (hn : s.name = "python_version") (hop : s.op = "in") (hv : s.value = verList2 p0 rest) :
+    ∃ vc b, gpcLeaf (.single s) = .ok vc ∧ vc.allowsPlain (pyV X Y Z) = b ∧
+      vc.allows (pyV X Y Z) = .ok b ∧ evalItem s.name s.op s.value false E = some b :=
+  gpcLeaf_in2 E X Y Z hE s p0 rest hs hn hop hv
+
+example : verList2 (3, 8) [(" ", (3, 9)), (", ", (3, 10))] = "3.8 3.9, 3.10" ∧
+    normalizePyConj [("in", "3.8 3.9")] [[]] = .ok [["3.8.*"], ["3.9.*"]] :=
+  ⟨by decide +kernel, by decide⟩
 
 /-- **…and of a single-marker-like on another variable it is the universal range** (the one-sided part for
 leaves: every interpreter is admitted). -/
